@@ -56,6 +56,7 @@ def crash_key_of(text):
         if " is out of bounds of `" in msg or " is not a char boundary" in msg:
             # the payload is the user's text and may itself contain backticks
             msg = msg.split(" of `")[0].split("; it is inside")[0]
+        msg = msg.split(", and yet the data is")[0]      # the payload that follows varies (None / Some(..)), the site is the same
         msg = re.sub(r"`[^`]*`", "`_`", msg)
         msg = re.sub(r"^@?[\w:#<>.]+ (expr )?#\d+ (: )?", "", msg)
         # long type dumps: keep the leading sentence
